@@ -180,6 +180,10 @@ func fixedHarmless() []mutant {
 				{File: "section_inverted_text_index.go", Old: "\t\t\tif !bytes.Equal(prevTerm, term) || prevTerm == nil {", New: "\t\t\tif termChanged || prevTerm == nil {"}}},
 		{Harmless: true, ID: "h-r37-first-term-flag", Prop: "C06", Rule: "R37",
 			Edits: []edit{{File: "section_inverted_text_index.go", Old: "\t\t\tif !bytes.Equal(prevTerm, term) || prevTerm == nil {", New: "\t\t\tif prevTerm == nil || !bytes.Equal(prevTerm, term) {"}}},
+		// recycling the builder after a failed InitSegmentBase is fine as long as reset() succeeded (was
+		// counted as a violation before round 7: the property needs a clean builder, not a successful build)
+		{Harmless: true, ID: "h-rf2-build-reusable-after-failed-init", Prop: "C10", Rule: "R10", Patch: "refactors/build2.diff",
+			Edits: []edit{{File: "new.go", Old: "\treusable := err == nil && s.reset() == nil\n", New: "\treusable := s.reset() == nil\n"}}},
 		// the repaired forms of the round-6 "slip hidden in a refactoring" seeds: the same
 		// refactoring without the slip (each passes the pinned suite and the seed's own demonstration)
 		{Harmless: true, ID: "h-r6-C01-fixed", Patch: "refactors/r6-C01-fixed.diff"},
